@@ -3,9 +3,9 @@
 # forever in open(<named pipe>, O_WRONLY); each of them keeps a reserved descriptor number, so the
 # process runs out of descriptors although the semaphore admits only a few tasks at a time.
 # usage: repro_2.sh <checkout>   (uses <checkout>/target/debug/fclones, builds nothing)
-CHECKOUT=${1:-/tmp/hunt/n1}
+CHECKOUT=${1:-/repo}
 F=$CHECKOUT/target/debug/fclones
-[ -x "$F" ] || F=/tmp/hunt/n1/target/debug/fclones
+[ -x "$F" ] || F=${1:-/repo}/target/debug/fclones
 D=$(mktemp -d)
 trap 'rm -rf "$D"' EXIT
 mkdir "$D/t"
